@@ -147,6 +147,11 @@ def truth(it, x):
         return truth_len(x.seq.len)
     if isinstance(x, Seq):
         return truth_len(x.len)
+    if isinstance(x, Instance) and getattr(x, "maybe_none", False):
+        # a reference read from a heap field: None is falsy; a list/dict-like object is falsy when empty
+        n = x.__dict__.setdefault("_ghost_len", it.ctx.fresh("len_of_ref", INT))
+        it.ctx.assume(n >= 0)
+        return z3.And(x.href != NONE, n != 0)
     if isinstance(x, Instance):
         ok, ln = it.class_attr(x.cls, "__len__")
         if ok:
@@ -991,6 +996,16 @@ def _d_setdefault(it, args, kwargs):
         if is_z3(k):
             raise Unsupported("symbolic key into concrete dict")
         return d.setdefault(k, default)
+    ctx = it.ctx
+    if is_v(d):
+        D = heap_D(ctx)
+        kv = to_v(it, k)
+        cur = D[d][kv]
+        if ctx.branch(cur != ABSENT):
+            return cur
+        dv = to_v(it, default)
+        ctx.heap["D"] = z3.Store(D, d, z3.Store(D[d], kv, dv))
+        return dv
     raise Unsupported("setdefault on symbolic dict")
 
 
@@ -1100,7 +1115,9 @@ def dict_comp(it, n, env, f):
     facts = [a for a in full[0] if not a.eq(z3.simplify(in_range(kk, coll.len)))]
     if facts:
         ctx.assumptions.append(z3.ForAll([kk], z3.Implies(in_range(kk, coll.len), z3.And(*facts))))
-    return IndexMap(it, coll.len, lambda j: subst(kproto, kk, j), lambda j: subst(vproto, kk, j))
+    im = IndexMap(it, coll.len, lambda j: subst(kproto, kk, j), lambda j: subst(vproto, kk, j))
+    it.last_index_map = im        # ghost: lets a contract name the lookup table
+    return im
 
 
 class IndexMap:
@@ -1621,6 +1638,14 @@ def _dir(it, args, kwargs):
     return MList(it.ctx, PyList(sorted(names)))
 
 
+_pyhash = z3.Function("pyhash", V, INT)
+
+
+def _hash(it, args, kwargs):
+    """hash(x): a function of the value - equal values have equal hashes, nothing more (NOT injective)."""
+    return _pyhash(to_v(it, args[0]))
+
+
 def _type(it, args, kwargs):
     if len(args) == 3:
         return Sentinel(args[0])
@@ -1702,7 +1727,7 @@ def make_builtins(it):
         "print": ModelFn("print", _print), "hasattr": ModelFn("hasattr", _hasattr),
         "getattr": ModelFn("getattr", _getattr), "property": ModelFn("property", _property),
         "classmethod": ModelFn("classmethod", _classmethod), "staticmethod": ModelFn("staticmethod", _staticmethod),
-        "type": ModelFn("type", _type), "dir": ModelFn("dir", _dir), "next": ModelFn("next", _next), "iter": ModelFn("iter", _iter),
+        "type": ModelFn("type", _type), "dir": ModelFn("dir", _dir), "hash": ModelFn("hash", _hash), "next": ModelFn("next", _next), "iter": ModelFn("iter", _iter),
         "sorted": ModelFn("sorted", _sorted),
         "bytes": TypeObj("bytes"), "int": TypeObj("int"), "str": TypeObj("str"), "bool": TypeObj("bool"), "float": TypeObj("float"),
         "object": TypeObj("object", methods=dict(OBJECT_METHODS)),
